@@ -192,13 +192,29 @@ def type_matrix():
     return out
 
 
+def nan_self_cases():
+    """an input holding NaN (and, for contrast, 1) compared with itself under every equality operator, directly, through the
+    identity method, and as the left operand of 且 / 或: equality is decided by the values"""
+    out = []
+    mk = Func("Mk", ["Kk", "Vv"], [Display(Var("Kk")), Return(Var("Vv"))])
+    for val in (float("nan"), 1.0, float("inf")):
+        inputs = {"Xa": {"t": "num", "bits": "%016x" % G.f2bits(val)}}
+        for op in ["xeq", "xneq", "eq", "neq", "gte", "lte", "gt"]:
+            e = Logic(op, Var("Xa"), Var("Xa"))
+            out.append(((["Xa"], [mk, Return(e)], []), inputs))
+            out.append(((["Xa"], [mk, Return(Logic(op, Var("Xa"), Call("Mk", [Num(1.0), Var("Xa")])))], []), inputs))
+            out.append(((["Xa"], [mk, Return(Logic("or", e, Call("Mk", [Num(2.0), Var("真")])))], []), inputs))
+            out.append(((["Xa"], [mk, Return(Logic("and", e, Call("Mk", [Num(3.0), Var("真")])))], []), inputs))
+    return out
+
+
 def run(chk, replay=None):
     rng = chk.rng
     if replay is not None:
         semprop.run_property(chk, "C01", "c01", [], 0, 0, replay=replay, what="expression value differs from the documented value")
         return
     n = 260 if chk.tier == "quick" else 4000
-    cases = [gen_case(rng) for _ in range(n)] + literal_cases(rng, 40 if chk.tier == "quick" else 400) + type_matrix()
+    cases = [gen_case(rng) for _ in range(n)] + literal_cases(rng, 40 if chk.tier == "quick" else 400) + type_matrix() + nan_self_cases()
     # the catalogue's witness
     cases.append((([], [Return(Logic("xeq", Map([("A", Num(1)), ("B", Num(2)), ("C", Num(3))]), Map([("A", Num(1)), ("B", Num(9)), ("C", Num(8))])))], []), None))
     cases.append((([], [Return(Logic("xeq", Map([("B", Num(2)), ("A", Num(1))]), Map([("A", Num(1)), ("B", Num(2))])))], []), None))
